@@ -14,7 +14,10 @@ CLAIM = dict(
          'diag(-1,1), m1 = 1; (ii) emits every such matrix as a case executed on the real Banded<Rat/f64/Complex>; (iii) validates recorded executions of the '
          'real code for all 385 (n <= 10, m1, m2): histories of index / fill / arithmetic / product operations compared in band only, determinant and solve of '
          'seven value families (positive, mixed sign, negative diagonal, zero diagonal with nonzero sub-diagonal, tiny sub-diagonal, singular, general reals) with arbitrary padding. '
-         'Rat: det must equal the fraction-free determinant of the dense twin and A x = b must hold exactly, both recomputed by TLC. Floats: backward error units <= 8 n^3 2^(n-1) (x8 complex).',
+         'Rat: det must equal the fraction-free determinant of the dense twin and A x = b must hold exactly, both recomputed by TLC. Floats: backward error units <= 8 n^3 2^(n-1) (x8 complex). '
+         'Floats, every (n, m1 >= 2, m2): pivot columns whose candidates inside the search window are graded 1, 2^-60, 2^-120, ... in chosen orders (diagonal zero or smallest, largest first / last / random) at a chosen elimination step - '
+         'only the pivot of largest magnitude keeps the backward error inside the guard. Sequences on ONE object: det, solve, product and all in-band reads before and after EVERY mutating operation '
+         '(index writes, fill, fill_band, resize, += / -= &B and B, *= s, /= s, += c, -= c); the trace specification keeps the model\'s current value and demands that every event starts from it.',
     note='Exact: everything over Rat and all integer-valued histories in every element type (decided by TLC). Measured: f64/Complex det and solve - the harness '
          'computes error units against complex double-double references (backward error of solve in units of eps(|A||x|+|b|); determinant error in units of '
          'eps sqrt(n) prod_i max(|row_i|, max|a|)), TLC applies the a-priori GEPP guard. Singular systems: det must be 0 (exact types) / within the guard of 0 (floats); '
@@ -47,7 +50,8 @@ def check(ctx):
     ctx.exhaustive_parts.append('all 385 triples (n <= 10, m1 < n, m2 < n): one history and seven value families each on the real code')
     return ctx.finish(
         rule='cases: (i) every initial state of the Banded model (n <= 3) as det/solve/product/index calls, element types rotating rat/f64/rat/cx; '
-             '(ii) for each of the 385 (n,m1,m2): histories of 14-30 operations (every operation of the API, own/ref forms, random padding) and det/solve/product on seven value families; '
+             '(ii) for each of the 385 (n,m1,m2): histories of 14-30 operations (every operation of the API, own/ref forms, random padding), det/solve/product on seven value families, graded pivot-candidate float cases for m1 >= 2; '
+             '(iii) for n = 1..10 sequences on one object interleaving det/solve/product/reads with every mutator; '
              'every event is counted (each carries a non-empty operand); distinct = distinct (operation, operand, arguments, outcome) tuples.',
         trusted=['harness projection of Banded<T> through compact() and the index operator', 'double-double reference elimination and residuals (harness/src/suites/banded.rs, dd.rs)',
                  'TLC', 'Banded.tla dense-twin operators (cross-checked against Leibniz/Cramer in MC_Banded)'])
